@@ -391,7 +391,8 @@ def checksum_feed(ctx):
         if not fs:
             ctx.anchor_missing('<%s as Read>::read' % adt)
             continue
-        f = fs[0]
+        from rules.io import effective_read
+        f = effective_read(F, fs[0])
         prov = Prov(f)
         reads = [(bi, t) for bi, t, c in f.calls() if is_trait_call(c, READ_TRAITS, 'read')]
         for rb, rt in reads:
@@ -982,7 +983,8 @@ def per_unit_reset(ctx):
         if not rd:
             ctx.anchor_missing('<%s as Read>::read' % adt)
             continue
-        f = rd[0]
+        from rules.io import effective_read
+        f = effective_read(F, rd[0])
         prov = Prov(f)
         acc = {}
         for bi, si, name, rv in self_field_stores(f):
